@@ -503,6 +503,15 @@ theorem paf_output_additive (exp sqrt : R → R) (σ : R) (s H W : Nat) (edges :
     unfold edgeData; rw [List.filter_append, List.map_append]
   rw [this, paf_additive]
 
+/-- **paf_passes_independent**: `PartAffinityFieldsGenerator` is modelled by a *function*: iterating
+the same generator object `k` times over the same example is mapping `pafs` over `k` copies of the
+input, and every pass gives the one-pass field (the code must not keep state between passes; the
+harness iterates each object 1–3 times, also interleaved, and requires identical results). -/
+theorem paf_passes_independent (exp sqrt : R → R) (σ : R) (s H W k : Nat) (edges : List (Nat × Nat))
+    (animals : List (List (Option (R × R)))) :
+    (List.replicate k animals).map (pafs exp sqrt Nat.cast σ s H W edges)
+      = List.replicate k (pafs exp sqrt Nat.cast σ s H W edges animals) := List.map_replicate
+
 /-! ## non-vacuity -/
 
 example : 0 < weight realTransc.exp (3/2 : ℝ) (5 : ℝ) ∧ weight realTransc.exp (3/2 : ℝ) 5 ≤ 1 :=
